@@ -98,7 +98,7 @@ func writeEvidence(c *ctx, cov map[string]interface{}, assumptions []string) {
 	if toInt(cov["distinct_nontrivial"]) < 2 || toInt(cov["evaluations"]) < 1 {
 		// A run that observed (almost) nothing must not pass silently - unless it
 		// stopped early because violations were found.
-		if c.R.NumViolations() == 0 {
+		if c.R.NumViolations() == 0 && c.RS == nil {
 			c.R.Inconclusive(fmt.Sprintf("the run observed only %d evaluations / %d distinct non-trivial cases", toInt(cov["evaluations"]), toInt(cov["distinct_nontrivial"])))
 		}
 	}
@@ -124,7 +124,7 @@ func violationsSoFar(c *ctx) bool { return c.R.NumViolations() >= 6 }
 
 // genPart runs an Engine G corpus for the check's property.
 func genPart(c *ctx, stream string, nFlows, nPars int, o prog.GenOpts, orders int, tags string, per int, race bool, nontrivial string) map[string]interface{} {
-	if violationsSoFar(c) {
+	if violationsSoFar(c) || (c.RS != nil && c.RS.Engine != "G") {
 		return nil
 	}
 	progs := genPrograms(c.Seed, stream, nFlows, nPars, o, orders)
